@@ -612,7 +612,11 @@ func (fr *c19Frame) walk(fl *c19Flow, visited map[string]bool) {
 				fl.add(&fl.authz, c19End{"db", "write", fname, fr.eval(x.Args[1])})
 			case strings.HasSuffix(fun, "NewExecutionOptions") && len(x.Args) > 0:
 				fl.add(&fl.exec, c19End{"db", "NewExecutionOptions#0", fname, fr.eval(x.Args[0])})
-			case strings.HasSuffix(fun, ".PointsWriter.RetryWritePointRows") && len(x.Args) > 0:
+			case strings.HasSuffix(fun, ".writeAuthorizer.Authenticate") && len(x.Args) == 3:
+				fl.add(&fl.authz, c19End{"db", "write", fname, fr.eval(x.Args[2])}) // services/writer: Authenticate + AuthorizeWrite(username, database)
+			case strings.HasSuffix(fun, ".RetryWriteRecords") && len(x.Args) > 0:
+				fl.add(&fl.exec, c19End{"db", "RetryWriteRecords#0", fname, fr.eval(x.Args[0])})
+			case strings.HasSuffix(fun, ".RetryWritePointRows") && len(x.Args) > 0:
 				fl.add(&fl.exec, c19End{"db", "RetryWritePointRows#0", fname, fr.eval(x.Args[0])})
 			case strings.HasSuffix(fun, ".QueryExecutor.ExecuteQuery") && len(x.Args) > 0:
 				fl.add(&fl.exec, c19End{"q", "ExecuteQuery#0", fname, fr.eval(x.Args[0])})
@@ -732,6 +736,13 @@ func genC19Flows(g *Gen, p *c19Pkg, routes []c19Route) {
 				q.frame(fd, nil, 0).walk(fl, map[string]bool{})
 				extra = append(extra, fmt.Sprintf("  ⟨%s, %s, %s⟩", leanStr(fl.handler), leanEnds(fl.authz), leanEnds(fl.exec)))
 			}
+		}
+	}
+	if q, err := c19Load(g, "services/writer/"); err == nil {
+		if fd := q.funcs["Service.Write"]; fd != nil && fd.Body != nil {
+			fl := &c19Flow{handler: "writer.Service.Write", seen: map[string]bool{}}
+			q.frame(fd, nil, 0).walk(fl, map[string]bool{})
+			extra = append(extra, fmt.Sprintf("  ⟨%s, %s, %s⟩", leanStr(fl.handler), leanEnds(fl.authz), leanEnds(fl.exec)))
 		}
 	}
 	g.P("def dbFlows : List DbFlow := [\n%s\n]\n", strings.Join(rows, ",\n"))
